@@ -14,6 +14,7 @@ import (
 // ---------------- scheduler ----------------
 
 type thread struct {
+	waiting string
 	id      int
 	wake    chan struct{}
 	done    bool
@@ -31,6 +32,8 @@ type Point struct {
 type Exec struct {
 	Points   []Point
 	Deadlock bool
+	// DeadlockInfo: what every unfinished thread was waiting for
+	DeadlockInfo string
 	Horizon  bool // execution exceeded MaxPoints (livelock suspicion)
 	Results  []interface{}
 	Diverged string // non-empty: replay of the forced prefix was impossible (infrastructure error)
@@ -49,10 +52,17 @@ var (
 // Active reports whether the calling code runs under the scheduler.
 func Active() bool { return active && cur != nil }
 
+// YieldProbe, when set, is called at every scheduling point (development aid: which
+// statements generate the points).
+var YieldProbe func()
+
 // Yield is a scheduling point.
 func Yield() {
 	if !active || cur == nil {
 		return
+	}
+	if YieldProbe != nil {
+		YieldProbe()
 	}
 	t := cur
 	sched <- struct{}{}
@@ -75,6 +85,7 @@ func Run(prefix []int, bodies ...func() interface{}) (x Exec) {
 	sched = make(chan struct{})
 	threads = nil
 	resetPools()
+	resetLocks()
 	for i, b := range bodies {
 		t := &thread{id: i, wake: make(chan struct{})}
 		threads = append(threads, t)
@@ -110,6 +121,11 @@ func Run(prefix []int, bodies ...func() interface{}) (x Exec) {
 		}
 		if len(en) == 0 {
 			x.Deadlock = true
+			for _, t := range threads {
+				if !t.done {
+					x.DeadlockInfo += fmt.Sprintf("[thread %d waits for %s] ", t.id, t.waiting)
+				}
+			}
 			break
 		}
 		if step >= MaxPoints {
@@ -181,16 +197,21 @@ type Stats struct {
 // scenario per execution. shard/nshard split the first-level subtrees over processes
 // (the root execution itself belongs to shard 0). check returns false to stop.
 func Explore(bound int, shard, nshard int, mk func() []func() interface{}, check func(x Exec, choices []int) bool, stop func() bool) (st Stats) {
-	var rec func(pfx []int, depth int) bool
-	unit := 0
-	rec = func(pfx []int, depth int) bool {
+	// Sharding: the root and every level-1 execution (one deviation from the default
+	// schedule) are RUN by every shard, because their points are needed to enumerate the
+	// subtrees, but each is CHECKED and counted by one owner only; the level-2 subtrees are
+	// dealt out round-robin - they are numerous and of similar size, so the shards finish
+	// together (level-1 subtrees differ in size by orders of magnitude).
+	var rec func(pfx []int, depth int, mine bool) bool
+	unit1, unit2 := 0, 0
+	rec = func(pfx []int, depth int, mine bool) bool {
 		if stop != nil && stop() {
 			st.Stopped = true
 			return false
 		}
 		x := Run(pfx, mk()...)
 		choices := x.Choices()
-		if depth > 0 || shard == 0 || nshard <= 1 {
+		if mine {
 			st.Execs++
 			st.Transitions += len(x.Points)
 			if len(x.Points) > st.MaxPoints {
@@ -216,14 +237,22 @@ func Explore(bound int, shard, nshard int, mk func() []func() interface{}, check
 					if cost > bound {
 						continue
 					}
-					if depth == 0 && nshard > 1 {
-						unit++
-						if unit%nshard != shard {
-							continue
+					childMine := mine
+					if nshard > 1 {
+						switch depth {
+						case 0:
+							unit1++
+							childMine = unit1%nshard == shard
+						case 1:
+							unit2++
+							childMine = unit2%nshard == shard
+							if !childMine {
+								continue // somebody else's subtree
+							}
 						}
 					}
 					np := append(append([]int{}, choices[:i]...), alt)
-					if !rec(np, depth+1) {
+					if !rec(np, depth+1, childMine) {
 						return false
 					}
 				}
@@ -234,15 +263,35 @@ func Explore(bound int, shard, nshard int, mk func() []func() interface{}, check
 		}
 		return true
 	}
-	rec(nil, 0)
+	rec(nil, 0, shard == 0 || nshard <= 1)
 	return
 }
 
 // ---------------- sync shims ----------------
 
+// locks touched under the scheduler are registered so that an execution that ended with a
+// lock held (deadlock, horizon, a panic while holding it) cannot poison the next one: global
+// locks (program caches, field cache) outlive an execution.
+var (
+	usedMutexes   []*Mutex
+	usedRWMutexes []*RWMutex
+)
+
+func resetLocks() {
+	for _, m := range usedMutexes {
+		m.held, m.owner, m.reg = false, -1, false
+	}
+	for _, m := range usedRWMutexes {
+		m.w, m.r, m.owner, m.reg = false, 0, -1, false
+	}
+	usedMutexes, usedRWMutexes = nil, nil
+}
+
 type Mutex struct {
-	held bool
-	real rsync.Mutex
+	held  bool
+	owner int
+	reg   bool
+	real  rsync.Mutex
 }
 
 func (m *Mutex) Lock() {
@@ -251,10 +300,17 @@ func (m *Mutex) Lock() {
 		return
 	}
 	Yield()
+	if !m.reg {
+		m.reg = true
+		usedMutexes = append(usedMutexes, m)
+	}
 	if m.held {
+		cur.waiting = fmt.Sprintf("Mutex %p held by thread %d", m, m.owner)
 		block(func() bool { return m.held })
+		cur.waiting = ""
 	}
 	m.held = true
+	m.owner = cur.id
 }
 
 func (m *Mutex) Unlock() {
@@ -270,9 +326,11 @@ func (m *Mutex) Unlock() {
 }
 
 type RWMutex struct {
-	w    bool
-	r    int
-	real rsync.RWMutex
+	w     bool
+	r     int
+	owner int
+	reg   bool
+	real  rsync.RWMutex
 }
 
 func (m *RWMutex) Lock() {
@@ -281,10 +339,17 @@ func (m *RWMutex) Lock() {
 		return
 	}
 	Yield()
+	if !m.reg {
+		m.reg = true
+		usedRWMutexes = append(usedRWMutexes, m)
+	}
 	if m.w || m.r > 0 {
+		cur.waiting = fmt.Sprintf("RWMutex %p (write) w=%v r=%d owner=%d", m, m.w, m.r, m.owner)
 		block(func() bool { return m.w || m.r > 0 })
+		cur.waiting = ""
 	}
 	m.w = true
+	m.owner = cur.id
 }
 
 func (m *RWMutex) Unlock() {
@@ -305,8 +370,14 @@ func (m *RWMutex) RLock() {
 		return
 	}
 	Yield()
+	if !m.reg {
+		m.reg = true
+		usedRWMutexes = append(usedRWMutexes, m)
+	}
 	if m.w {
+		cur.waiting = fmt.Sprintf("RWMutex %p (read) held for writing by thread %d", m, m.owner)
 		block(func() bool { return m.w })
+		cur.waiting = ""
 	}
 	m.r++
 }
